@@ -159,6 +159,16 @@ def check_random(S, p):
         to = [rng.randint(1, s) for s in shape]
         mid = [rng.randint(t, s) for t, s in zip(to, shape)]
         cases.append({"shape": shape, "data": data, "to": to, "mid": mid, "kind": kind})
+    # spectra with more than 4096 entries (counts not divisible by 4, 8, 16), mass concentrated in the last entries
+    if p["i"] % 4 == 0:
+        for shape in ([rng.choice([4097, 4099, 4101, 8191])], [65, 65], [17, 17, 15], [63, 67]):
+            n_ = O.prod(shape)
+            data = [0.0] * n_
+            for k_ in list(range(n_ - 5, n_)) + [rng.randrange(n_) for _ in range(6)]:
+                data[k_] = float(rng.randint(1, 9))
+            to = [rng.randint(1, min(s_, 6)) for s_ in shape]
+            cases.append({"shape": shape, "data": data, "to": to, "mid": [rng.randint(t, min(s_, t + 3)) for t, s_ in zip(to, shape)], "kind": "large-sparse"})
+            S.count("large_spectra")
     reqs = []
     for c in cases:
         reqs.append(spec_req(c["shape"], c["data"], do="project", to=c["to"]))       # direct
@@ -247,8 +257,16 @@ def check_errors(S, p):
         d = len(shape)
         bigger = list(shape); bigger[rng.randrange(d)] += rng.randint(1, 3)
         zero = list(shape); zero[rng.randrange(d)] = 0
-        for to, want in ((bigger, "InvalidProjection"), (zero, "Zero"), (shape + [1], "UnequalDimensions"), (shape[:-1], "UnequalDimensions" if d > 1 else None),
-                         ([2 ** 63] * d, "InvalidProjection"), ([2 ** 64 - 1] * d, "InvalidProjection")):
+        mixed = []
+        for i_ in range(d):
+            for j_ in range(d):
+                if i_ != j_ and shape[i_] > 1:
+                    t_ = list(shape)
+                    t_[i_] -= 1              # one axis shrinks ...
+                    t_[j_] += rng.randint(1, 2)   # ... another grows: inadmissible whatever the order of the two axes
+                    mixed.append((t_, "InvalidProjection"))
+        for to, want in [(bigger, "InvalidProjection"), (zero, "Zero"), (shape + [1], "UnequalDimensions"), (shape[:-1], "UnequalDimensions" if d > 1 else None),
+                         ([2 ** 63] * d, "InvalidProjection"), ([2 ** 64 - 1] * d, "InvalidProjection")] + mixed:
             if to == [] or want is None:
                 continue
             reqs.append(spec_req(shape, data, do="project", to=to))
